@@ -37,7 +37,8 @@ static void gen_signal(link_t *L, rng_t *r, float **buf, long pos, long n, doubl
     for(int c=0;c<L->ch;c++){
       double v=(rng_unit(r)*2.0-1.0)*(*env);
       if(L->sigkind==3 && (rng_u32(r)%4000)==0) v = 0.95;
-      if(L->sigkind==4 && c==1 && (((pos+i)/3000)&1)) v = 0.0;     /* one channel of the pair goes exactly silent: its floor is flagged unused */
+      if(L->sigkind==4 && c==1 && (((pos+i)/3000)&1)) v = 0.0;
+      if(L->sigkind==5 && c==1 && !(((pos+i)/3000)&1)) v = 0.0;    /* same, but the stream STARTS with the silent channel: its work vector is first used uncleared */     /* one channel of the pair goes exactly silent: its floor is flagged unused */
       buf[c][i]=(float)v;
     }
   }
